@@ -178,7 +178,7 @@ impl<'a> FieldData<'a> {
         );
 
         let var = match name {
-            FieldName::Ident(name) => Cow::Borrowed(name),
+            FieldName::Ident(name) => Cow::Owned(format_ident!("_field_{}", name.unraw())),
             FieldName::Index(ref index) => Cow::Owned(format_ident!("r#_field{}", index.index)),
         };
 
